@@ -140,6 +140,34 @@ def nextTailOrig {α ε : Type} (truthy : ε → Bool) : Option (Ending ε) → 
   | some .stop => .stop
   | none => .stop
 
+/-! ### why the lock placement matters: a variant with one unlocked write
+
+The exception handler of `_prefetch_loop` writes `_error` and `_active` inside one critical
+section; that is what makes `fail` a single atomic step above.  `stepUnlockedActive` is the variant
+in which `self._active = False` is executed *before* `with self._cond:` (without the lock): the
+handler becomes two steps, and the consumer can run between them. -/
+
+/-- state of the variant: the ordinary state plus the exception the producer still has to publish -/
+structure StU (α ε : Type) where
+  s : St α ε
+  pending : Option (Ending ε)
+  deriving Repr, DecidableEq
+
+def stepUnlockedActive {α ε : Type} (bs : Nat) (ending : Ending ε) (l : Label) (u : StU α ε) :
+    Option (StU α ε) :=
+  match l with
+  | .fail =>
+    match u.pending, u.s.ppc with
+    | none, .haveErr e => some { s := { u.s with active := false }, pending := some e }   -- unlocked `_active = False`
+    | some e, _ => some { s := { u.s with error := some e, ppc := .done }, pending := none }   -- locked `_error = e; notify`
+    | _, _ => none
+  | l => (step .fixed bs ending l u.s).map (fun s' => { u with s := s' })
+
+def runUnlockedActive {α ε : Type} (bs : Nat) (ending : Ending ε) :
+    List Label → StU α ε → Option (StU α ε)
+  | [], u => some u
+  | l :: ls, u => (stepUnlockedActive bs ending l u).bind (runUnlockedActive bs ending ls)
+
 /-- run a schedule; `none` if it asks for a step that is not enabled -/
 def run {α ε : Type} (v : Variant) (bs : Nat) (ending : Ending ε) :
     List Label → St α ε → Option (St α ε)
